@@ -46,13 +46,14 @@ TRUSTED_BASE = ["Coq 8.16.1 kernel (coqc), vm_compute only",
 ASSUMPTIONS = ["the application handles messages in the canonical form `enforce(seqnum,msg) || msg->process(router)` "
                "(what the harness' HSession and every fix8 example do); handle_admin / authenticate overrides are the defaults",
                "no SessionConfig (ignore_logon_sequence_check off), not `reliable`, pm_thread; correctly framed input (C15)",
-               "sequence numbers stay below 2^31; timestamps are canonical 21-character UTC timestamps",
+               "sequence numbers stay below 2^31 (written in decimal, possibly with leading zeros); timestamps are canonical 21-character UTC timestamps",
                "corrupt messages are limited to: wrong CheckSum, missing mandatory header/body field, no MsgSeqNum at all, a tag "
                "twice, unknown message type; no repeating groups, no unknown or misplaced tags (C04/C05), values < 2048 bytes"]
 RULE = ("histories for both roles, file/memory/no persister, enforce_compids on/off, silent_disconnect on/off, receive "
         "number argument: a Logon (in sequence / low / high / PossDup / ResetSeqNumFlag absent, Y, N, also after a restart on "
         "the files with carried-over numbers) and then 1..9 inbound probes aimed at the "
-        "expected number the generator tracks: equal, lower (PossDup absent / Y / N, OrigSendingTime before / equal / after "
+        "expected number the generator tracks (MsgSeqNum, NewSeqNo, BeginSeqNo/EndSeqNo, RefSeqNum also written with 1..3 leading "
+        "zeros; expected numbers 7 8 9 10 63 64 100 systematically): equal, lower (PossDup absent / Y / N, OrigSendingTime before / equal / after "
         "SendingTime / absent), higher by 1..3, wrong Sender/TargetCompID, bad checksum, missing mandatory body or header "
         "field, a tag twice (also a second MsgSeqNum), unknown message type, header/body fields in shuffled order, no '34=' at "
         "all, header values that contain '34=<n>' before or after the real field and data fields (SecureData, XmlData behind "
@@ -160,8 +161,10 @@ def rawmsg(fields, bad_chk=False, begin="FIX.4.2"):
 ADMIN_BODY = {
     "0": lambda g: [(112, S.word(g.rng))] if g.rng.random() < 0.3 else [],
     "1": lambda g: [(112, S.word(g.rng))],
-    "2": lambda g: [(7, g.rng.randint(1, 3)), (16, 0)],
-    "3": lambda g: [(45, g.rng.randint(1, 9))] + ([(58, S.word(g.rng, 1, 10))] if g.rng.random() < 0.4 else []),
+    "2": lambda g: ([(7, g.rng.randint(1, 3)), (16, 0)] if g.rng.random() < 0.7 else
+                    [(7, zpad(g.rng, g.rng.randint(1, 3))), (16, g.rng.choice(["0", "00", "008", "010"]))]),
+    "3": lambda g: [(45, g.rng.randint(1, 9) if g.rng.random() < 0.7 else zpad(g.rng, g.rng.randint(1, 12)))] +
+                   ([(58, S.word(g.rng, 1, 10))] if g.rng.random() < 0.4 else []),
     "5": lambda g: [(58, "bye")] if g.rng.random() < 0.3 else [],
 }
 HDR_VALUE_TAGS = [115, 128, 50, 57, 116, 129]        # string-valued header fields of the UTEST schema
@@ -173,6 +176,7 @@ class G(S.Hist):
     def __init__(self, rng, role, persist, **kw):
         S.Hist.__init__(self, rng, role, persist, **kw)
         self.ec = kw.get("ec", 1)
+        self.padp = kw.get("padp", 0.0)      # probability of a zero-padded MsgSeqNum
         self.exp = kw.get("rs") or 1         # estimate of next_recv
         self.st = "pre"                      # pre | cont | resend | test | dead
         self.logons = 0
@@ -183,7 +187,8 @@ class G(S.Hist):
         if t == "A":
             return [(98, 0), (108, self.hb)]
         if t == "4":
-            return [(123, "Y"), (36, self.exp + self.rng.randint(1, 3))]
+            n = self.exp + self.rng.randint(1, 3)
+            return [(123, "Y"), (36, n if self.rng.random() < 0.7 else zpad(self.rng, n))]
         return S.app_fields(self.rng, t, self.now)
 
     def msg(self, t, seq, body=None, sender=None, target=None, pre=(), post=(), possdup=None, orig=None,
@@ -195,6 +200,8 @@ class G(S.Hist):
             f.append((56, self.me if target is None else target))
         f += list(pre)
         if 34 not in omit:
+            if isinstance(seq, int) and self.rng.random() < self.padp:
+                seq = zpad(self.rng, seq)               # MsgSeqNum with leading zeros
             f.append((34, seq))
         if possdup is not None:
             f.append((43, possdup))
@@ -218,6 +225,14 @@ class G(S.Hist):
 TWOCHAR = list(S.TWOCHAR_TYPES)
 APP = ["D", "D", "D", "F", "8", "j"] + TWOCHAR
 ANY = ["D", "D", "D", "F", "8", "j", "0", "0", "1", "3", "2"] + TWOCHAR
+
+
+def zpad(rng, n, k=None):
+    """A legal but unusual spelling of a number: 1..3 leading zeros."""
+    return "0" * (k or rng.randint(1, 3)) + str(n)
+
+
+PAD_VALUES = (7, 8, 9, 10, 63, 64, 100)       # around the places where a non-decimal reading of a padded number differs
 
 
 def probe(g, kind=None, ttype=None):
@@ -372,7 +387,7 @@ def probe(g, kind=None, ttype=None):
     elif k == "seqreset":
         nsn = E + rng.randint(0, 4)
         seq = rng.choice([E, E, E + 3, max(1, E - 1)])
-        g.feed(g.msg("4", seq, body=[(36, nsn)] + ([(123, "Y")] if rng.random() < 0.6 else [])))
+        g.feed(g.msg("4", seq, body=[(36, nsn if rng.random() < 0.7 else zpad(rng, nsn))] + ([(123, "Y")] if rng.random() < 0.6 else [])))
         if alive:
             g.exp = max(nsn, 1)
             if g.st == "resend":
@@ -435,12 +450,16 @@ def history(rng, role=None, persist=None, nprobes=None, force=None, **over):
     kw = {"hb": rng.choice([5, 10, 30]), "asa": 0, "ec": 0 if rng.random() < 0.25 else 1}
     if rng.random() < 0.15:
         kw["sd"] = 1
-    if rng.random() < 0.35:
-        kw["rs"] = rng.randint(2, 9)
+    if rng.random() < 0.4:
+        kw["rs"] = rng.choice([rng.randint(2, 9), rng.randint(2, 9), 6, 7, 8, 9, 10, 62, 63, 64, 99, 100])
+    if rng.random() < 0.3:
+        kw["padp"] = rng.choice([0.2, 0.5, 1.0])
     if rng.random() < 0.1:
         kw["t"] = S.T0 + rng.randrange(0, 300 * 86400) * 10**9 + rng.randrange(1000) * 10**6
     kw.update(over)
+    padp = kw.pop("padp", 0.0)
     g = G(rng, role, persist, **kw)
+    g.padp = padp
     E = g.exp
     # ---- before logon
     # (not for an acceptor with a MemoryPersister: any processed message writes a control record and the
@@ -574,6 +593,22 @@ def gen_cases(rng, tier):
                     probe(g, kind, ttype=tt)
                     probe(g, "ok", ttype=tt)
                     cs.append(Case(g.line(), "sys-twochar"))
+    # 1p. MsgSeqNum written with 1..3 leading zeros (legal FIX; the decoded field and the gating number are both
+    #     decimal readings of the same text): expected number V in PAD_VALUES, the message at / above / below
+    #     (without and with PossDup) / equal with PossDup, application and administrative types, both roles
+    for V in PAD_VALUES:
+        for k in (1, 2, 3):
+            for rel in ("at", "above1", "above2", "below", "belowpd", "eqpd"):
+                for tt in (rng.choice(APP), rng.choice(["0", "1", "D", "8"])):
+                    role = rng.choice("IA")
+                    g = G(rng, role, rng.choice(["file", "mem", "none"]), hb=30, asa=0, ec=1, rs=V - 1)
+                    g.feed(g.msg("A", zpad(rng, V - 1) if rng.random() < 0.3 else V - 1))
+                    g.st, g.exp = "cont", V
+                    n = {"at": V, "above1": V + 1, "above2": V + 2, "below": V - 1, "belowpd": V - 1, "eqpd": V}[rel]
+                    pd = "Y" if rel in ("belowpd", "eqpd") else None
+                    g.feed(g.msg(tt, zpad(rng, n, k), possdup=pd, orig=S.ts(g.now - 10**9) if pd and rng.random() < 0.7 else None))
+                    g.feed(g.msg(rng.choice(APP), zpad(rng, V + 1, k)))
+                    cs.append(Case(g.line(), "sys-pad"))
     # 1b. acceptor Logons with ResetSeqNumFlag absent / Y / N against carried-over expected numbers (receive number
     #     argument of start; control record on the files across a restart), then messages at 2 and at expected
     for flag in (None, "Y", "N"):
